@@ -173,7 +173,7 @@ func cmdWorker(args []string, sweep bool) {
 	tuples := fs.String("tuples", "", "file receiving (expression, document, outcome) tuples for the oracle process")
 	maxOps := fs.Int("maxops", 12, "C06: maximum history length")
 	tupleEvery := fs.Uint64("tuple-every", 1, "record oracle tuples only for runs whose index is a multiple of this")
-	maxYields := fs.Uint64("maxyields", 3_000_000, "watchdog: yields per run")
+	maxYields := fs.Uint64("maxyields", 400_000_000, "watchdog: yields per run")
 	samples := fs.Int("samples", 0, "keep this many sample workloads in the output")
 	digests := fs.String("digests", "", "write one line per run: index, event-log digest (determinism self-check)")
 	noNative := fs.Bool("nonative", false, "C15: leave out Go's own (unpinned) map order, so that event logs are comparable across processes")
@@ -345,7 +345,7 @@ type ReplayFile struct {
 // when the detector fires) with a line "SIM-VIOLATION class=<c> sig=<s>".
 func cmdReplay(args []string) {
 	fs := flag.NewFlagSet("replay", flag.ExitOnError)
-	maxYields := fs.Uint64("maxyields", 3_000_000, "watchdog")
+	maxYields := fs.Uint64("maxyields", 400_000_000, "watchdog")
 	fs.Parse(args)
 	if fs.NArg() != 1 {
 		fmt.Fprintln(os.Stderr, "usage: jmsim replay <file>")
